@@ -111,7 +111,7 @@ func (e *engine) read() reply {
 	default:
 		e.count(fmt.Sprintf("reply_%dxx", r.Code/100))
 		e.codes[r.Code] = true
-		if r.Code == 421 && strings.Contains(r.text(), "Internal server error") {
+		if r.Code == 421 && strings.Contains(r.text(), "Internal server error") && !strings.Contains(r.text(), "msg ID") {
 			e.count("server_panic_421")
 		}
 		if r.highLoad() {
@@ -141,6 +141,12 @@ func (e *engine) run() {
 				e.flush()
 			}
 		case "bdat":
+			if !st.Force && len(e.pending) == 0 && e.out.Len() == 0 && len(e.goRcpts) == 0 {
+				// a client that waited for the replies knows there is no recipient;
+				// go-smtp would refuse BDAT without consuming the chunk (desync)
+				e.count("bdat_skipped_no_recipient")
+				continue
+			}
 			e.queue([]byte(st.Line + "\r\n"))
 			if st.Truncate > 0 {
 				e.queue(st.Payload[:st.Truncate])
